@@ -449,3 +449,129 @@ def compare(model, obs, outervar_sorted):
         if canon(model["outer"]) != canon([(l, st) for l, st in obs["outer"]]):
             diffs.append("ResolveOuterVars: model %r impl %r" % (model["outer"], obs["outer"]))
     return diffs
+
+
+# ------------------------------------------------------------------ the walk model (Scope/Walk.v) and the lexical resolver
+
+WALK_IMPORTS = MODEL_IMPORTS + ["HyV.Scope.Walk", "HyV.Scope.Lexical"]
+WALK_DEFS = MODEL_DEFS + """
+Local Open Scope nat_scope.
+Definition kind_code (k : skind) : nat := match k with KGlobal => 0 | KLet => 1 | KFn => 2 | KClass => 3 | KGen => 4 end.
+Definition enc_event (e : event) : nat * nat * nat * list name :=
+  match e with
+  | EEnter k sid args => (0, kind_code k, sid, args)
+  | EExit => (1, 0, 0, [])
+  | EAccess x => (2, 0, 0, [x])
+  | EAssign x => (3, 0, 0, [x])
+  | EAssignNode l x => (4, l, 0, [x])
+  | EDefine x => (5, 0, 0, [x])
+  | EDecl RGlobal names => (6, 0, 0, names)
+  | EDecl RNonlocal names => (6, 1, 0, names)
+  | ELetAdd sid x new => (7, sid, 0, [x; new])
+  | EIterator xs => (8, 0, 0, xs)
+  | EFinalize => (9, 0, 0, [])
+  end.
+Definition walk_events (fs : list form) := map enc_event (module_events hy_let_name fs).
+Definition machine_vs_lex (fs : list form) :=
+  let st := run (fun l => l) finalize_order (module_events hy_let_name fs) init_state in
+  let lx := lex_module hy_let_name fs in
+  (l_ok lx, st_cells st, l_cells lx).
+"""
+
+
+def form_to_coq(f):
+    """program AST (props/scope_progs.py) -> Gallina [form]; None if outside the walk model"""
+    k = f[0]
+    if k == "lit":
+        return "FLit"
+    if k == "sym":
+        return "(FRef %s)" % qn(f[1])
+    if k == "ref":
+        return "(FCall (FRef %s) [FLit; FRef %s])" % (qn("lg"), qn(f[2]))
+    if k in ("setv", "setx"):
+        e = form_to_coq(f[2])
+        return None if e is None else "(FSetv %s %s)" % (qn(f[1]), e)
+    if k == "do":
+        es = [form_to_coq(x) for x in f[1]]
+        return None if None in es else "(FDo [%s])" % "; ".join(es)
+    if k == "let":
+        bs = [(x, form_to_coq(e)) for x, e in f[1]]
+        body = [form_to_coq(x) for x in f[2]]
+        if None in body or any(e is None for _, e in bs):
+            return None
+        return "(FLet [%s] [%s])" % ("; ".join("(%s, %s)" % (qn(x), e) for x, e in bs), "; ".join(body))
+    if k == "fn":
+        body = [form_to_coq(x) for x in f[2]]
+        return None if None in body else "(FFn [%s] [%s])" % ("; ".join(qn(p) for p in f[1]), "; ".join(body))
+    if k == "defn":
+        body = [form_to_coq(x) for x in f[3]]
+        return None if None in body else "(FDefn %s [%s] [%s])" % (qn(f[1]), "; ".join(qn(p) for p in f[2]), "; ".join(body))
+    if k == "class":
+        if f[2]:
+            attrs = ["(FSetv %s FLit)" % qn(a) for a, _ in f[2]]
+        else:
+            attrs = []
+        ms = [form_to_coq(m) for m in f[3]]
+        return None if None in ms else "(FClass %s [%s])" % (qn(f[1]), "; ".join(attrs + ms))
+    if k in ("nonlocal", "global"):
+        return "(FDecl %s [%s])" % ("RNonlocal" if k == "nonlocal" else "RGlobal", "; ".join(qn(x) for x in f[1]))
+    if k == "call":
+        g = form_to_coq(f[1])
+        args = [form_to_coq(a) for a in f[2]]
+        return None if g is None or None in args else "(FCall %s [%s])" % (g, "; ".join(args))
+    if k == "callm":
+        return "(FCall (FRef %s) [])" % qn(f[1])
+    return None
+
+
+def program_to_coq(forms):
+    fs = [form_to_coq(f) for f in forms]
+    return None if None in fs else "[%s]" % "; ".join(fs)
+
+
+def canon_recorded(events):
+    """recorded events in the encoding of WALK_DEFS.enc_event, with the let variables renumbered
+    1, 2, ... in order of creation and parameter sets sorted"""
+    ren = {}
+    out = []
+    kinds = {"KGlobal": 0, "KLet": 1, "KFn": 2, "KClass": 3, "KGen": 4}
+
+    def r(n):
+        return ren.get(n, n)
+    for e in events:
+        k = e[0]
+        if k == "let_add":
+            m = re.match(r"(_hy_let_.*_)(\d+)$", e[3])
+            if m and e[3] not in ren:
+                ren[e[3]] = "%s%d" % (m.group(1), len(ren) + 1)
+    for e in events:
+        k = e[0]
+        if k == "enter":
+            out.append((0, kinds[e[1]], e[2], sorted(e[3])))
+        elif k == "exit":
+            out.append((1, 0, 0, []))
+        elif k == "access":
+            out.append((2, 0, 0, [r(e[1])]))
+        elif k == "assign":
+            out.append((3, 0, 0, [r(e[1])]))
+        elif k == "assign_node":
+            out.append((4, e[1], 0, [r(e[2])]))
+        elif k == "define":
+            out.append((5, 0, 0, [e[1]]))
+        elif k == "decl":
+            out.append((6, 1 if e[1] == "RNonlocal" else 0, 0, [r(x) for x in e[2]]))
+        elif k == "let_add":
+            out.append((7, e[1], 0, [e[2], r(e[3])]))
+        elif k == "iterator":
+            out.append((8, 0, 0, list(e[1])))
+        elif k == "finalize":
+            out.append((9, 0, 0, []))
+    return out
+
+
+def decode_walk(v):
+    out = []
+    for tag, a, b, names in v:
+        ns = [txt(n) for n in names]
+        out.append((tag, a, b, sorted(ns) if tag == 0 else ns))
+    return out
